@@ -27,7 +27,15 @@ func ErrorOnPath(ctx context.Context, err error) error {
 	var gqlErr *gqlerror.Error
 	if errors.As(err, &gqlErr) {
 		if gqlErr.Path == nil {
-			gqlErr.Path = GetPath(ctx)
+			// the error value may be shared (a package-level sentinel returned from many
+			// fields and requests): give this occurrence its path on a copy
+			cp := *gqlErr
+			cp.Path = GetPath(ctx)
+			if err != error(gqlErr) {
+				// keep the wrapping chain reachable to avoid losing any attached annotation
+				cp.Err = err
+			}
+			return &cp
 		}
 		// Return the original error to avoid losing any attached annotation
 		return err
